@@ -54,6 +54,14 @@ Theorem C20_generator_state_shape_kept : forall s, mt_ok s -> mt_ok (snd (mt_nex
 Proof. exact mt_next_ok. Qed.
 Theorem C20_generator_state_shape_after_seeding : forall sd, mt_ok (mt_seed sd).
 Proof. exact mt_seed_ok. Qed.
+(* ... hence after ANY number of draws from any seed *)
+Theorem C20_generator_state_shape_for_every_draw_count :
+  forall sd n, mt_ok (Nat.iter n (fun s => snd (mt_next s)) (mt_seed sd)).
+Proof.
+  intros sd n. induction n as [|n IH]; cbn [Nat.iter nat_rect].
+  - exact (C20_generator_state_shape_after_seeding sd).
+  - exact (C20_generator_state_shape_kept _ IH).
+Qed.
 (* setLocalSeed forgets the history: uniform01 / uniformBool / uniformInt draws after it are those of a fresh generator *)
 Theorem C20_mt_reseed_reproduces_draws : forall (old : mt) sd pat, mt_draws pat (mt_set_local_seed old sd) = rng_draws sd pat.
 Proof. exact reseed_reproduces_stream. Qed.
@@ -61,6 +69,7 @@ Proof. exact reseed_reproduces_stream. Qed.
 Print Assumptions C20_ith_generator_stream_depends_on_seed_and_index.
 Print Assumptions C20_generator_state_shape_kept.
 Print Assumptions C20_generator_state_shape_after_seeding.
+Print Assumptions C20_generator_state_shape_for_every_draw_count.
 Print Assumptions C20_mt_reseed_reproduces_draws.
 Print Assumptions C20_seed_sequence_independent_of_initial_state.
 Print Assumptions C20_ith_seed_depends_on_seed_and_index.
